@@ -407,6 +407,11 @@ def mon_c16(spec, run):
     tr = run.trace
     cs = calls(tr)
     closes = [c for c in cs if c["op"][0] == "close"]
+    if spec.get("closer"):
+        # YncaApi.close() from a second thread: a close() that began before initialize() had its connection (connect() returned and the first
+        # use of the connection was made) may be ordered entirely before initialize() — closing an API object that has nothing open yet
+        est = min([c["call"] for c in cs if c["op"][0] in ("reg", "get") and str(c["ctx"]).startswith("api@U0")], default=10 ** 12)
+        closes = [c for c in closes if not (c["ctx"] == "U1" and c["call"] < est)]
     if not closes:
         return bad
     fault = first_seq(tr, lambda e: e["k"] in ("fault_injected", "write_fault", "read_fault"))
@@ -996,3 +1001,4 @@ def mon_c02_threads(spec, run):
 
 
 MONITORS["C02t"] = mon_c02_threads
+MONITORS["C04r"] = _wire("mon_c04_race")
